@@ -213,3 +213,16 @@ func (s *streamOut) note(kind, text string) {
 	fmt.Fprintf(s.notes, "%d\t%s\t%s\n", s.n+1, kind, strings.ReplaceAll(text, "\n", " "))
 }
 func (s *streamOut) close() { s.cases.Close(); s.impl.Close(); s.notes.Close() }
+
+// a random permutation of 0..n-1
+func (r *rng) perm(n int) []int {
+	p := make([]int, n)
+	for i := range p {
+		p[i] = i
+	}
+	for i := n - 1; i > 0; i-- {
+		j := r.intn(i + 1)
+		p[i], p[j] = p[j], p[i]
+	}
+	return p
+}
